@@ -140,6 +140,35 @@ Definition exists_wf (f : fn_def) : bool :=
   | _ => false
   end.
 
+(* read: the member found under exactly (id, ext) in the file table is read on a clone of the reader
+   and read WHOLE (read_to_end for zip; seek to its recorded start and read_exact of its recorded
+   size for tar); what was read is what is returned *)
+Definition zip_read_wf (f : fn_def) : bool :=
+  match fn_body f with
+  | [ELetS (PIdent "key" None) (Some (ERef (ETuple [EPath ["id"]; EPath ["ext"]]))) None;
+     ELetS (PIdent "index" None) (Some (EUnary "*" (ETry (EMethod (EMethod (EField (EPath ["self"]) "files") "get" [EPath ["key"]]) "ok_or_else" _)))) None;
+     ELetS (PIdent "archive" None) (Some (EMethod (EField (EPath ["self"]) "archive") "clone" [])) None;
+     ELetS (PIdent "file" None) (Some (ETry (EMethod (EMethod (EPath ["archive"]) "by_index" [EPath ["index"]]) "map_err" _))) None;
+     ELetS (PIdent "content" None) (Some (ECall (EPath ["Vec"; _]) _)) None;
+     ESemi (ETry (EMethod (EMethod (EPath ["file"]) "read_to_end" [ERef (EPath ["content"])]) "map_err" _));
+     ECall (EPath ["Ok"]) [ECall (EPath ["super"; "FileContent"; "Buffer"]) [EPath ["content"]]]] => true
+  | _ => false
+  end.
+Definition tar_read_wf (f : fn_def) : bool :=
+  match fn_body f with
+  | [ELetS (PRef (PTuple [PIdent "start" None; PIdent "size" None]))
+       (Some (ETry (EMethod (EMethod (EField (EPath ["self"]) "files") "get" [ECast (ERef (ETuple [EPath ["id"]; EPath ["ext"]])) _]) "ok_or_else" _))) None;
+     ELetS (PIdent "reader" None) (Some (EMethod (EField (EPath ["self"]) "reader") "clone" [])) None;
+     ELetS (PIdent "buf" None) (Some (EMacro "vec" [EOther "0 ; size as usize"])) None;
+     ESemi (ETry (EMethod (EMethod (EMethod (EPath ["reader"]) "seek" [ECall (EPath ["io"; "SeekFrom"; "Start"]) [EPath ["start"]]]) "and_then"
+                              [EClosure [PWild] (EMethod (EPath ["reader"]) "read_exact" [ERef (EPath ["buf"])])]) "map_err" _));
+     ECall (EPath ["Ok"]) [ECall (EPath ["super"; "FileContent"; "Buffer"]) [EPath ["buf"]]]] => true
+  | _ => false
+  end.
+
+Lemma archives_read_whole_members : zip_read_wf zip_read = true /\ tar_read_wf tar_read = true.
+Proof. vm_compute. split; reflexivity. Qed.
+
 Lemma archives_index_as_modelled :
   register_dir_wf zip_register_dir = true /\ register_dir_wf tar_register_dir = true /\
   register_file_wf zip_register_file = true /\ register_file_wf tar_register_file = true /\
